@@ -130,7 +130,13 @@ async def inter_history():
 
 async def search(n):
     for k in range(n):
-        bad = await (plain_history() if k % 2 else inter_history())
+        try:
+            bad = await (plain_history() if k % 2 else inter_history())
+        except asyncio.TimeoutError:
+            bad = {"failure": "a token that was put on the port is never delivered to a consumer that reads it (get() still blocked after 5 s)",
+                   "history": "plain" if k % 2 else "inter-workflow"}
+        except Exception as e:  # noqa
+            bad = {"failure": f"the port raised {type(e).__name__}: {e}", "history": "plain" if k % 2 else "inter-workflow"}
         if bad:
             return bad
     return None
